@@ -131,6 +131,12 @@ pub fn string_push_str(s: &mut String, t: &String)
 pub fn string_is_empty(s: &String) -> (r: bool)
     ensures r == (s@.len() == 0),
 { s.is_empty() }
+/// `S.remove(0)`: panics on an empty string
+#[verifier::external_body]
+pub fn string_remove0(s: &mut String) -> (r: char)
+    requires old(s)@.len() > 0,
+    ensures final(s)@ == old(s)@.drop_first(), r == old(s)@[0],
+{ s.remove(0) }
 /// `S.parse::<u64>()` for a string of ASCII digits: Ok(value) iff non-empty and the value fits
 #[verifier::external_body]
 pub fn parse_u64(s: &String) -> (r: Result<u64, std::num::ParseIntError>)
@@ -149,16 +155,34 @@ pub fn string_skip1(s: &String) -> (r: String)
     ensures r@ == (if s@.len() > 0 { s@.drop_first() } else { s@ }),
 { s.chars().skip(1).collect() }
 
-/// ASSUMED values of the string tables of src/control.rs used by the recogniser (their contents are proved by the
-/// Kani harness `control_tables`)
-#[verifier::external_body]
-pub proof fn axiom_control_tables()
+/// values of the string tables of src/control.rs used by the recogniser: PROVED from the constants extracted verbatim
+/// (they were assumed here and proved only by the Kani harness `control_tables` before; that harness still runs)
+pub proof fn lemma_control_tables() //#lemma: C03 C19 C20
     ensures
         forall|s: Seq<char>| #![trigger tbl_has(BASIC@, s)] tbl_has(BASIC@, s) == (s.len() == 1 && is_basic(s[0])),
         forall|s: Seq<char>| #![trigger tbl_has(ALLOWED_IN_CSI@, s)] tbl_has(ALLOWED_IN_CSI@, s) == (s.len() == 1 && allowed_in_csi(s[0])),
         forall|s: Seq<char>| #![trigger tbl_has(OSC_TERMINATORS@, s)] tbl_has(OSC_TERMINATORS@, s) ==
             ((s.len() == 1 && (s[0] == '\u{7}' || s[0] == '\u{9c}')) || (s.len() == 2 && s[0] == '\u{1b}' && s[1] == '\\')),
 {
+    reveal_strlit("\u{7}"); reveal_strlit("\u{8}"); reveal_strlit("\u{9}"); reveal_strlit("\u{a}"); reveal_strlit("\u{b}");
+    reveal_strlit("\u{c}"); reveal_strlit("\u{d}"); reveal_strlit("\u{e}"); reveal_strlit("\u{f}");
+    reveal_strlit("\u{009C}"); reveal_strlit("\u{001B}\\");
+    assert(BASIC@.len() == 9 && ALLOWED_IN_CSI@.len() == 7 && OSC_TERMINATORS@.len() == 3);
+    assert forall|s: Seq<char>| #![trigger tbl_has(BASIC@, s)] tbl_has(BASIC@, s) == (s.len() == 1 && is_basic(s[0])) by {
+        if s.len() == 1 && is_basic(s[0]) { let j = (s[0] as u32 - 7) as int; assert(BASIC@[j]@ =~= s); }
+        if tbl_has(BASIC@, s) { let i = choose|i: int| 0 <= i < BASIC@.len() && (#[trigger] BASIC@[i])@ == s; assert(BASIC@[i]@.len() == 1); }
+    }
+    assert forall|s: Seq<char>| #![trigger tbl_has(ALLOWED_IN_CSI@, s)] tbl_has(ALLOWED_IN_CSI@, s) == (s.len() == 1 && allowed_in_csi(s[0])) by {
+        if s.len() == 1 && allowed_in_csi(s[0]) { let j = (s[0] as u32 - 7) as int; assert(ALLOWED_IN_CSI@[j]@ =~= s); }
+        if tbl_has(ALLOWED_IN_CSI@, s) { let i = choose|i: int| 0 <= i < ALLOWED_IN_CSI@.len() && (#[trigger] ALLOWED_IN_CSI@[i])@ == s; assert(ALLOWED_IN_CSI@[i]@.len() == 1); }
+    }
+    assert forall|s: Seq<char>| #![trigger tbl_has(OSC_TERMINATORS@, s)] tbl_has(OSC_TERMINATORS@, s) ==
+            ((s.len() == 1 && (s[0] == '\u{7}' || s[0] == '\u{9c}')) || (s.len() == 2 && s[0] == '\u{1b}' && s[1] == '\\')) by {
+        if s.len() == 1 && s[0] == '\u{7}' { assert(OSC_TERMINATORS@[0]@ =~= s); }
+        if s.len() == 2 && s[0] == '\u{1b}' && s[1] == '\\' { assert(OSC_TERMINATORS@[1]@ =~= s); }
+        if s.len() == 1 && s[0] == '\u{9c}' { assert(OSC_TERMINATORS@[2]@ =~= s); }
+        if tbl_has(OSC_TERMINATORS@, s) { let i = choose|i: int| 0 <= i < OSC_TERMINATORS@.len() && (#[trigger] OSC_TERMINATORS@[i])@ == s; assert(0 <= i < 3); }
+    }
 }
 
 /// the values of the one-character constants of src/control.rs (extracted verbatim; ascii!(hi/lo) evaluated mechanically)
